@@ -162,7 +162,10 @@ func (s *sdsSUT) snapshot(id string) {
 	s.hist[id] = append(s.hist[id], policySnap{t: s.now, allow: sp.allow.Copy(), err: sp.sarErr})
 }
 
-// advance moves the clock of every authorization cache (verif hook: cached verdicts become d seconds older).
+// advance moves the clock of every authorization cache (verif hook: cached verdicts become d seconds older). All
+// advances are multiples of 60 s, so a cached verdict's nominal age is always 60 s or more away from the side of a TTL
+// boundary (60 s / 300 s) on which real elapsed time could flip the comparison: a case may take up to a minute of
+// wall clock without the real cache and the model disagreeing.
 func (s *sdsSUT) advance(sec int) {
 	s.now += sec
 	for _, id := range s.order {
@@ -170,7 +173,7 @@ func (s *sdsSUT) advance(sec int) {
 	}
 }
 
-// policyChange applies a change of the fake authoriser. Before `start` it only configures; afterwards 20 clock
+// policyChange applies a change of the fake authoriser. Before `start` it only configures; afterwards 60 clock
 // seconds pass first, then the API server answers according to the new policy.
 func (s *sdsSUT) policyChange(id string, f func(sp *clusterSpec)) {
 	if s.gen != nil && s.specs[id] == nil {
@@ -181,7 +184,7 @@ func (s *sdsSUT) policyChange(id string, f func(sp *clusterSpec)) {
 		f(sp)
 		return
 	}
-	s.advance(20)
+	s.advance(60)
 	f(sp)
 	if sp.policy != nil {
 		sp.policy.apiError = sp.sarErr
@@ -725,7 +728,7 @@ func genSDS(seed uint64, n int, outp string) {
 				}
 				continue
 			case 1:
-				out.Line("tick", strconv.Itoa(wire.Pick(r, []int{20, 40, 60, 100, 240, 300, 320})))
+				out.Line("tick", strconv.Itoa(wire.Pick(r, []int{60, 60, 120, 180, 240, 300, 360})))
 				continue
 			}
 			p := wire.Pick(r, proxies)
@@ -780,6 +783,31 @@ func genSDS(seed uint64, n int, outp string) {
 			}
 			out.Line("gen", wire.B(p.hasVid), wire.Enc(p.td), wire.Enc(p.ns), wire.Enc(p.sa), wire.Enc(p.cluster), p.refs, p.ptype,
 				wire.Enc(p.claimedNs), wire.EncList(uniq), req, uk, un, uns)
+		}
+		// a revocation / grant scenario on the clock: allowed and served, revoked (a cached success may still be served),
+		// five minutes later it must be refused; granted again, and at the latest a minute later served again
+		if r.Chance(1, 4) {
+			q := wire.Pick(r, proxies)
+			if q.hasVid && (q.cluster == "c1" || q.cluster == "c2") {
+				ask := func() {
+					names := []string{"kubernetes://" + wire.Pick(r, storeNames), "kubernetes://" + q.ns + "/" + wire.Pick(r, storeNames), "kubernetes://a", "kubernetes://b"}
+					out.Line("gen", "1", wire.Enc(q.td), wire.Enc(q.ns), wire.Enc(q.sa), wire.Enc(q.cluster), q.refs, q.ptype,
+						wire.Enc(q.claimedNs), wire.EncList(dedup(names)), "1", "-", "-", "-")
+				}
+				out.Line("allow", q.cluster, q.sa, wire.Enc(q.ns))
+				out.Line("tick", "60")
+				ask()
+				out.Line("deny", q.cluster, q.sa, wire.Enc(q.ns))
+				ask()
+				out.Line("tick", strconv.Itoa(wire.Pick(r, []int{120, 180, 240, 300, 360})))
+				ask()
+				out.Line("tick", "60")
+				ask()
+				out.Line("allow", q.cluster, q.sa, wire.Enc(q.ns))
+				ask()
+				out.Line("tick", strconv.Itoa(wire.Pick(r, []int{60, 120})))
+				ask()
+			}
 		}
 	}
 }
